@@ -77,6 +77,17 @@ def parseOp (fs : List String) : Option Op :=
 
 def step (s : St) (fs : List String) : St × String :=
   match fs with
+  | ["periodrenew", tokP, roleP] =>
+    -- a periodic token created through a role (request period tokP, role period roleP, 0 = none) and renewed at once:
+    -- both TTLs are the lesser period (`C05.periodic_role_token_capped_by_own_period`)
+    match tokP.toInt?, roleP.toInt? with
+    | some tp, some rp =>
+      let base : Obao.TTL.Inp := { now := 0, start := 0, sysMax := sysMax, sysDefault := sysDefault, increment := 0,
+                                   backendTTL := 0, period := Obao.TTL.renewPeriod tp rp, backendMax := 0, explicitMax := 0 }
+      match Obao.TTL.calcTTL base with
+      | .ok t _ => (s, s!"create:{roundMin t}|renew:{roundMin t}|" ++ showObs s)
+      | _ => (s, "bad-op")
+    | _, _ => (s, "bad-op")
   | ["crash", _, j, now] =>
     -- a restart from ANY crash prefix restores exactly the stored leases (`C05b.restart_tracks_stored`)
     match j.toNat?, now.toInt? with
